@@ -148,6 +148,9 @@ type ssaEval struct {
 	xb      *evalExtB // function values and closures seen (ext_b.go)
 	// orderMinMax: min/max of values that are not both constants are decided by the oracle
 	orderMinMax bool
+	// flatEmbedded: a field promoted from a struct embedded by value has the address it would have as
+	// a direct field (s.grp.f is the cell s.f), so that grouping fields into an embedded struct is invisible
+	flatEmbedded bool
 }
 
 type strIter struct {
@@ -528,6 +531,12 @@ func (e *ssaEval) instr(fr *frame, ins ssa.Instruction) {
 	case *ssa.FieldAddr:
 		a := e.val(fr, x.X)
 		fld := x.X.Type().Underlying().(*types.Pointer).Elem().Underlying().(*types.Struct).Field(x.Field)
+		if e.flatEmbedded && fld.Embedded() && (a.k == svAddr || a.k == svSym) {
+			if _, isStruct := fld.Type().Underlying().(*types.Struct); isStruct {
+				set(x, sv{k: svAddr, s: a.s})
+				return
+			}
+		}
 		if a.k == svAddr || a.k == svSym {
 			set(x, sv{k: svAddr, s: a.s + "." + fld.Name()})
 		} else if !a.known() {
@@ -536,6 +545,7 @@ func (e *ssaEval) instr(fr *frame, ins ssa.Instruction) {
 		}
 	case *ssa.IndexAddr:
 		a, i := e.val(fr, x.X), e.val(fr, x.Index)
+		a = e.arrayCellList(x.X, a)
 		if a.k == svString && i.k == svInt && i.i >= 0 && i.i < int64(len(a.s)) {
 			// element of a concrete byte sequence
 			set(x, sv{k: svAddr, s: fmt.Sprintf("const:%d", a.s[i.i])})
@@ -596,6 +606,7 @@ func (e *ssaEval) instr(fr *frame, ins ssa.Instruction) {
 		}
 	case *ssa.Slice:
 		a := e.val(fr, x.X)
+		a = e.arrayCellList(x.X, a)
 		if a.k == svList || a.k == svNil {
 			lo, hi := int64(0), a.n
 			ok := true
@@ -805,6 +816,22 @@ func (e *ssaEval) instr(fr *frame, ins ssa.Instruction) {
 		set(x.(ssa.Value), symV(fmt.Sprintf("fresh%d", e.nalloc)))
 		e.noteClosure(fr, ins, fmt.Sprintf("fresh%d", e.nalloc))
 	}
+}
+
+// arrayCellList: an array variable whose cell holds a list (a rule modelled the elements of a
+// fixed-size buffer): indexing and slicing the array is indexing and slicing that list.
+func (e *ssaEval) arrayCellList(x ssa.Value, a sv) sv {
+	if a.k != svAddr {
+		return a
+	}
+	if p, ok := x.Type().Underlying().(*types.Pointer); ok {
+		if _, isArr := p.Elem().Underlying().(*types.Array); isArr {
+			if l, ok := e.mem[a.s]; ok && l.k == svList {
+				return l
+			}
+		}
+	}
+	return a
 }
 
 func (e *ssaEval) modelLookup(x *ssa.Lookup, m, k sv) (sv, bool) {
